@@ -1291,7 +1291,7 @@ namespace avel {
     [[nodiscard]]
     AVEL_FINL mask8x32f signbit(vec8x32f v) {
         #if (defined(AVEL_AVX512VL) && defined(AVEL_AVX512DQ)) || defined(AVEL_AVX10_1)
-        return mask8x32f{_mm256_fpclass_ps_mask(decay(v), 0x40 | 0x04 | 0x10)};
+        return mask8x32f{_mm256_movepi32_mask(_mm256_castps_si256(decay(v)))};
 
         #elif defined(AVEL_AVX512VL)
         return mask8x32f{_mm256_cmplt_epi32_mask(_mm256_castps_si256(decay(v)), _mm256_setzero_si256())};
